@@ -183,7 +183,10 @@ def flag_paths(body, dag, start, stop_blocks=(), cut=None, follow_back=True, vis
     States are (block, last definition of each flag)."""
     from mir import op_local
     cut = cut or (lambda facts: False)
-    flags = {l for l, ds in body.defs.items() if len([d for d in ds if d[0] in body.reachable]) >= 2 and all(d[1] != "T" for d in ds)}
+    # (a definition by a call's return value -- `done = cas.is_ok()` on one arm, `done = true` on the other -- is recorded as (block, "T"))
+    flags = {l for l, ds in body.defs.items() if len([d for d in ds if d[0] in body.reachable]) >= 2 and all(d[1] != "T" or body.term(d[0])[0] == "Call" for d in ds)}
+    def rv_of(db, di):
+        return ["CallRes", body.term(db)[1]] if di == "T" else body.stmts(db)[di][2]
     back = set(body.back_edges) if not follow_back else set()
     def peel(e):
         neg = False
@@ -236,14 +239,16 @@ def flag_paths(body, dag, start, stop_blocks=(), cut=None, follow_back=True, vis
                 else:
                     env[l] = (b, i)
         t = body.term(b)
-        nenv = tuple(sorted(env.items()))
+        if t[0] == "Call" and t[1].get("dst") and not t[1]["dst"]["p"] and t[1]["dst"]["l"] in flags:
+            env[t[1]["dst"]["l"]] = (b, "T")
+        nenv = tuple(sorted(env.items(), key=str))
         succs = None
         if t[0] == "Switch":
             tr = through_try(op_local(t[1]))
             if tr is not None:
                 fl, _d = resolve(tr[0]); vmap = tr[1]
                 if fl is not None and fl in env:
-                    db, di = env[fl]; rvx = body.stmts(db)[di][2]
+                    db, di = env[fl]; rvx = rv_of(db, di)
                     if rvx[0] == "Agg" and rvx[1][0] == "Adt" and isinstance(rvx[1][3], int):
                         want = [cf for cf, xv in vmap.items() if xv == rvx[1][3]]
                         if want:
@@ -254,7 +259,7 @@ def flag_paths(body, dag, start, stop_blocks=(), cut=None, follow_back=True, vis
             fl, disc = resolve(op_local(t[1]))
             rv = None
             if fl is not None and fl in env:
-                db, di = env[fl]; rv = body.stmts(db)[di][2]
+                db, di = env[fl]; rv = rv_of(db, di)
             if disc:
                 if rv is not None and rv[0] == "Agg" and rv[1][0] == "Adt" and isinstance(rv[1][3], int):
                     v = rv[1][3]
@@ -346,7 +351,7 @@ def returned_values(body, dag, start):
             l = rv[1][1]["l"]
             for _ in range(8):
                 if l in env:
-                    db, di = env[l]; c = classify(body.stmts(db)[di][2]); break
+                    db, di = env[l]; c = classify(body.stmts(db)[di][2]) if di != "T" else None; break
                 d = body.single_def(l)
                 if d is None or d[1] == "T" or d[2][0] != "Use" or d[2][1][0] not in ("c", "m") or d[2][1][1]["p"]:
                     if d is not None and d[1] != "T": c = classify(d[2])
@@ -405,3 +410,18 @@ def element_stores(body, dag):
             if c.get("fname") in ("get_unchecked_mut", "index_mut", "get_mut") and len(c["args"]) >= 2:
                 out.append((b, dag.expr(c["args"][0]), D.strip_casts(dag.expr(c["args"][1])), st[2]))
     return out
+
+
+def ring_index_base(e, n_name="BUFFER_SIZE"):
+    """`x % N` or its power-of-two spelling `x & (N - 1)` (N the generic const; the constant may have travelled through a named generic const such as
+    `const INDEX_MASK: usize = BUFFER_SIZE - 1`, which the DAG reads as its defining expression): returns x (casts stripped), else None"""
+    from dag import strip_casts
+    e = strip_casts(e)
+    if not isinstance(e, tuple) or e[0] != "bin": return None
+    N = ("gconst", n_name)
+    if e[1] == "Rem" and strip_casts(e[3]) == N: return strip_casts(e[2])
+    if e[1] == "BitAnd":
+        for x, m in ((e[2], e[3]), (e[3], e[2])):
+            m = strip_casts(m)
+            if m[0] == "bin" and m[1].rstrip("!~") == "Sub" and strip_casts(m[2]) == N and strip_casts(m[3]) == ("const", 1): return strip_casts(x)
+    return None
